@@ -715,6 +715,28 @@ static void gen_c08_keysweep(Builder &b) {
 	b.plan.note = "keysweep";
 }
 
+// Faults of the kinds the creating-call enumeration does not cover, attached to a finished history:
+//  - a page-protection request (mprotect) inside a call is refused. The unchanged library ignores the result, so it may
+//    crash afterwards (no listed property covers that; the executor books everything after the refusal as a note) - but it
+//    must never answer a refusal by asking for W+X, and a single-call hash that does return must have restored MXCSR;
+//  - an allocation request inside a single-call hash fails (the first hash of a JIT VM grows a vector): the exception
+//    leaves the C API, the caller catches it and goes on using the VM.
+static void attach_late_faults(Builder &b, bool page_faults, bool hash_faults) {
+	rt::Rng r = rt::substream(b.plan.seed, "latefaults");
+	if (page_faults && r.chance(1, 20)) {
+		std::vector<size_t> cand;
+		for (size_t i = 0; i < b.plan.ops.size(); ++i) { int k = b.plan.ops[i].kind; if ((k == INIT_CACHE || k == CREATE_VM || k == SET_CACHE || k == HASH || k == FIRST || k == NEXT || k == LAST || k == SET_V2 || k == CLEAR_V2 || k == ALLOC_CACHE) && !b.plan.ops[i].expect_null) cand.push_back(i); }
+		int n = (int)r.range(1, 2);
+		for (int j = 0; j < n && !cand.empty(); ++j) b.plan.ops[cand[r.below(cand.size())]].pfault.push_back(1 + (int)r.below(3));
+	}
+	if (hash_faults && r.chance(1, 8)) {
+		std::vector<size_t> cand;
+		for (size_t i = 0; i < b.plan.ops.size(); ++i) if (b.plan.ops[i].kind == HASH) cand.push_back(i);
+		int n = (int)r.range(1, 2);
+		for (int j = 0; j < n && !cand.empty(); ++j) { Op &o = b.plan.ops[cand[r.below(cand.size())]]; if (o.fault.empty()) o.fault.push_back(1 + (int)r.below(2)); }
+	}
+}
+
 // sort ops by phase keeping relative order (tasks of the concurrent phase were emitted task by task)
 static void finish(Plan &p) { std::stable_sort(p.ops.begin(), p.ops.end(), [](const Op &a, const Op &b) { return a.phase < b.phase; }); }
 
@@ -761,10 +783,10 @@ ops::Plan generate(Context &gc, uint64_t run_seed, uint64_t index) {
 			b.attach_env = true;
 			gen_c14(b, thorough);
 			b.plan.note = "threads";
-		} else { ho.env = true; ho.checks = false; history(b, ho); }
+		} else { ho.env = true; ho.checks = false; history(b, ho); attach_late_faults(b, true, false); }
 	}
-	else if (P == "C15") { ho.faults = true; ho.checks = false; history(b, ho); }
-	else if (P == "C16") { ho.secure_only = true; ho.faults = true; ho.checks = false; ho.audit_every = thorough ? 1 : (int)b.rng.range(3, 8); history(b, ho); }
+	else if (P == "C15") { ho.faults = true; ho.checks = false; history(b, ho); attach_late_faults(b, false, true); }
+	else if (P == "C16") { ho.secure_only = true; ho.faults = true; ho.checks = false; ho.audit_every = thorough ? 1 : (int)b.rng.range(3, 8); history(b, ho); attach_late_faults(b, true, true); }
 	else if (P == "C14") gen_c14(b, thorough);
 	else if (P == "C08") { if (gc.mode == "keysweep") gen_c08_keysweep(b); else gen_c08(b, thorough); }
 	else history(b, ho);
